@@ -101,3 +101,39 @@ func gsxAPI(name string) {
 		}
 	}
 }
+
+// gsxC20ExitAfterDefer: exitAfterDefer's "X will exit" is about log.Fatal*,
+// and os.Exit of the standard library: when it reports for `Q.F(...)` after a
+// defer, Q resolves to the imported package log / os - not to a variable,
+// field or user package that merely has that name.
+func gsxC20ExitAfterDefer() {
+	c, ctx := gsxNewChecker("exitAfterDefer")
+	info := ctx.TypesInfo
+	info.Types = map[ast.Expr]types.TypeAndValue{}
+	info.Uses = map[*ast.Ident]types.Object{}
+	info.Defs = map[*ast.Ident]types.Object{}
+	names := []struct{ q, f, path string }{{"log", "Fatal", "log"}, {"log", "Fatalf", "log"}, {"log", "Fatalln", "log"}, {"os", "Exit", "os"}}
+	pick := names[gsxrt.Choose("callee", len(names))]
+	q := &ast.Ident{Name: pick.q, NamePos: 60}
+	kind := gsxrt.Choose("qualifier is", 3)
+	switch kind {
+	case 0: // the standard package
+		info.Uses[q] = types.NewPkgName(0, nil, pick.q, types.NewPackage(pick.path, pick.q))
+	case 1: // another package imported under that name
+		info.Uses[q] = types.NewPkgName(0, nil, pick.q, types.NewPackage("example.com/my/"+pick.q, pick.q))
+	default: // a local variable with such a method
+		info.Uses[q] = types.NewVar(0, nil, pick.q, types.NewNamed(types.NewTypeName(0, nil, "logger", nil), types.NewStruct(nil, nil), nil))
+	}
+	call := &ast.CallExpr{Fun: &ast.SelectorExpr{X: q, Sel: &ast.Ident{Name: pick.f, NamePos: 64}}, Lparen: 70, Rparen: 72}
+	deferred := &ast.DeferStmt{Defer: 40, Call: &ast.CallExpr{Fun: &ast.Ident{Name: "println", NamePos: 46}, Lparen: 53, Rparen: 54}}
+	fn := &ast.FuncDecl{Name: &ast.Ident{Name: "f", NamePos: 25}, Type: &ast.FuncType{Func: 20, Params: &ast.FieldList{Opening: 26, Closing: 27}},
+		Body: &ast.BlockStmt{Lbrace: 30, List: []ast.Stmt{deferred, &ast.ExprStmt{X: call}}, Rbrace: 80}}
+	v := gsxrt.Field(gsxrt.Field(c, "fileWalker"), "visitor").(interface{ VisitFuncDecl(*ast.FuncDecl) })
+	v.VisitFuncDecl(fn)
+	gsxrt.Reached("visited")
+	if len(gsxWarnings(c)) == 0 {
+		return
+	}
+	gsxrt.Reached("reported")
+	gsxrt.Assert(kind == 0, "api: a diagnostic about a standard package is issued for a user declaration that merely shares its name")
+}
